@@ -39,6 +39,9 @@ type c03Case struct {
 	// filestore part
 	FileSize int   `json:"file_size"`
 	Regions  [][2]int `json:"regions"` // offset, length
+	// KeepMtime: mutations leave the file's modification time unchanged (silent
+	// corruption, in-place writes with restored times, coarse-mtime file systems)
+	KeepMtime bool `json:"keep_mtime"`
 }
 
 func c03Gen(t *rapid.T, tier string) any {
@@ -61,6 +64,7 @@ func c03Gen(t *rapid.T, tier string) any {
 		ln := rapid.IntRange(1, c.FileSize-off).Draw(t, "len")
 		c.Regions = append(c.Regions, [2]int{off, ln})
 	}
+	c.KeepMtime = rapid.Bool().Draw(t, "keepmtime")
 	c.Cfg = verifsim.GenConfig(t, 0, 1000, time.Minute, nil)
 	return c
 }
@@ -185,6 +189,11 @@ func c03Run(t *testing.T, ci any, trace bool) *verifsim.Result {
 			if err := os.WriteFile(fpath, b, 0o644); err != nil {
 				panic(err)
 			}
+			if c.KeepMtime {
+				if err := os.Chtimes(fpath, time.Unix(1_500_000_000, 0), time.Unix(1_500_000_000, 0)); err != nil {
+					panic(err)
+				}
+			}
 		}
 		write(content)
 		fd := simds.New(s, "fds", nil)
@@ -301,7 +310,11 @@ func c03Run(t *testing.T, ci any, trace bool) *verifsim.Result {
 		if !probe("restoring the file", func(ref) string { return "ok" }) {
 			return
 		}
-		s.FaultN("file-mutation", nmut)
+		if c.KeepMtime {
+			s.FaultN("file-mutation-mtime-preserved", nmut)
+		} else {
+			s.FaultN("file-mutation", nmut)
+		}
 	})
 }
 
